@@ -367,6 +367,23 @@ func plainListener(name string) bool {
 	return name == "origin" || name == "proxyA" || name == "redirA" || name == "redirB"
 }
 
+func tlsListener(name string) bool { return name == "proxyB" || name == "proxyC" }
+
+// readRequest: the first line a listener logged is the start of an HTTP request (a listener handed a TLS hello in
+// the clear, or the reverse, logs nothing or bytes that are no method).
+func readRequest(firstLine string) bool {
+	m, _, ok := strings.Cut(firstLine, " ")
+	if !ok || m == "" {
+		return false
+	}
+	for i := 0; i < len(m); i++ {
+		if m[i] < 'A' || m[i] > 'Z' {
+			return false
+		}
+	}
+	return true
+}
+
 func evaluate(ctx *core.Ctx, h *hops, fc *reqmodel.FullCfg, one oneTarget, t *target, ob *observed, ans *reqmodel.SeqAnswer) {
 	mctx := reqmodel.Ctx{ClientIP: "127.0.0.1"}
 	if t.Kind == "mitm" {
@@ -531,13 +548,17 @@ func evaluate(ctx *core.Ctx, h *hops, fc *reqmodel.FullCfg, one oneTarget, t *ta
 		if wrong {
 			disagree("exactly the selected listener accepts the connection", listener)
 		}
-		expectHead := a.Via == "http" && plainListener(listener) || a.Via == "https" && listener == "proxyB" ||
+		expectHead := a.Via == "http" && plainListener(listener) || a.Via == "https" && tlsListener(listener) ||
 			a.Via == "direct" && t.Kind == "plain" && plainListener(listener)
 		if expectHead && len(a.Sent) > 0 {
 			want := a.Sent[0].Method + " " + a.Sent[0].Target
 			if ob.FirstLines[listener] != want {
 				disagree("first line read by the selected listener", want)
 			}
+		}
+		// the other way round: a listener spoken to in the other protocol reads no request
+		if (a.Via == "http" && tlsListener(listener) || a.Via == "https" && plainListener(listener) && listener != "origin") && readRequest(ob.FirstLines[listener]) {
+			disagree("a listener spoken to in the other protocol (TLS / plain) reads no request", "no request line at "+listener)
 		}
 		if a.Via == "socks5" && listener == "socks" {
 			if a.SocksTarget == nil || len(ob.SocksTargets) != 1 || ob.SocksTargets[0] != *a.SocksTarget {
@@ -605,6 +626,22 @@ func evaluate(ctx *core.Ctx, h *hops, fc *reqmodel.FullCfg, one oneTarget, t *ta
 		for n := range ob.Accepts {
 			if n != want && n != "origin" {
 				ctx.SpecFail("the request is never delivered to any other party", "", one, impl, "accepted by "+n+", selected "+want)
+			}
+		}
+		// PROXY/HTTP = an HTTP proxy, HTTPS = a TLS proxy: the selected hop is spoken to in the protocol the configuration
+		// names for it, whatever was sent to a hop with the same address before (judged at the listeners that are proxies)
+		if sp.Kind == "proxy" && want != "" && want != "origin" && (sp.Proxy == "http" || sp.Proxy == "https") {
+			read := readRequest(ob.FirstLines[want])
+			speaks := sp.Proxy == "http" && plainListener(want) || sp.Proxy == "https" && tlsListener(want)
+			other := sp.Proxy == "http" && tlsListener(want) || sp.Proxy == "https" && plainListener(want)
+			ctx.Count("spec/proxy-protocol/" + sp.Proxy + "/listener-speaks-it=" + fmt.Sprint(speaks))
+			if speaks && !read {
+				ctx.SpecFail("the selected proxy is spoken to in the protocol its entry names (PROXY/HTTP plain, HTTPS over TLS)", "", one, impl,
+					fmt.Sprintf("%s proxy %s: listener %s accepted the connection but read no request", sp.Proxy, sp.Addr, want))
+			}
+			if other && read {
+				ctx.SpecFail("the selected proxy is spoken to in the protocol its entry names (PROXY/HTTP plain, HTTPS over TLS)", "", one, impl,
+					fmt.Sprintf("%s proxy %s: listener %s speaks the other protocol and yet read %q", sp.Proxy, sp.Addr, want, ob.FirstLines[want]))
 			}
 		}
 	}
